@@ -481,7 +481,13 @@ func (vc *VC) havocAssigns(st *State, env *Env, c *Contract, pre *Heap) {
 	}
 	ups := map[string]*upd{}
 	var order []string
+	foreign := vc.contract == nil || vc.contract.Pkg == nil || c.Pkg == nil || vc.contract.Pkg.PkgPath != c.Pkg.PkgPath
 	for _, t := range c.Assigns {
+		if foreign && c.Linearizable && selectsUnexportedField(t.Expr) {
+			// the private representation of another package's type: invisible to this caller (it can neither read nor
+			// name it); the callee's abstract state is what the caller reasons about
+			continue
+		}
 		for _, lv := range penv.lvals(t.Expr) {
 			u := ups[lv.Arr]
 			if u == nil {
@@ -1749,4 +1755,24 @@ func (vc *VC) maplenFun(ks Sort) string {
 	// adding a new element increases the cardinality by one
 	vc.d.axiom(fmt.Sprintf("(forall ((m (Array %s Bool)) (k %s)) (! (=> (not (select m k)) (= (%s (store m k true)) (+ (%s m) 1))) :pattern ((%s (store m k true)))))", ks, ks, fn, fn, fn))
 	return fn
+}
+
+
+// selectsUnexportedField: the target expression goes through a field whose name is unexported (x.m.SDom).
+func selectsUnexportedField(e ast.Expr) bool {
+	found := false
+	ast.Inspect(e, func(n ast.Node) bool {
+		if sel, ok := n.(*ast.SelectorExpr); ok {
+			if _, inner := sel.X.(*ast.SelectorExpr); inner || true {
+				// only intermediate selections count: the final selector names the (ghost or real) field assigned
+			}
+			if isel, ok := sel.X.(*ast.SelectorExpr); ok {
+				if nm := isel.Sel.Name; nm != "" && !ast.IsExported(nm) {
+					found = true
+				}
+			}
+		}
+		return true
+	})
+	return found
 }
